@@ -11,8 +11,8 @@ using T = int; using T2 = long;
 #endif
 
 static GenCfg cfg;
-static char const* OV[] = {"lv=src", "rv=src", "lv=move(src)", "elements=elements", "fill", "swap", "initializer_list", "range(vector)", "lv=const-src", "lv=other-element-type", "element_moved", "moved-subarray", "rv=move(src)"};
-constexpr int NOV = 13;
+static char const* OV[] = {"lv=src", "rv=src", "lv=move(src)", "elements=elements", "fill", "swap", "initializer_list", "range(vector)", "lv=const-src", "lv=other-element-type", "element_moved", "moved-subarray", "rv=move(src)", "rv=element_moved"};
+constexpr int NOV = 14;
 constexpr L G = 8;
 
 template<class X> bool same(T const& a, X const& b) { if constexpr(std::is_arithmetic_v<T>) { return long(a) == long(b); } else { return a == b; } }
@@ -77,18 +77,18 @@ struct C05Vis {
 			if constexpr(D == 1) { run("std::vector"); std::vector<T> r; for(L k = 0; k < N; ++k) r.push_back(srcval(k)); if(g->chance(1, 2)) v = r; else std::move(v) = r; check_image(K, m, snap, srcval); }
 			else if constexpr(D == 2) { run("std::vector<std::vector>"); std::vector<std::vector<T>> r(std::size_t(m.size[0])); for(L k = 0; k < N; ++k) r[std::size_t(k / m.size[1])].push_back(srcval(k)); v = r; check_image(K, m, snap, srcval); }
 			break; }
-		case 10: case 11: {  // moving from views: element_moved() / moved sub-arrays move from exactly the viewed elements
+		case 10: case 11: case 13: {  // moving from views: element_moved() / moved sub-arrays move from exactly the viewed elements
 			with_source<D, T>(sk, m.size, 5, [&](auto& src, MV const& sm, auto* sbase, L sn) { using ST = std::decay_t<decltype(*sbase)>;
 				if constexpr(is_mutable_view<decltype(src)>) {
 					run(src_name(sk)); std::vector<T> ssnap(sbase, sbase + sn);
-					if(ov == 10) { v = src.element_moved(); } else { v = src.move(); }
+					if(ov == 10) { v = src.element_moved(); } else if(ov == 13) { std::move(v) = src.element_moved(); } else { v = src.move(); }
 					check_image(K, m, snap, srcval);
 					std::vector<char> in(std::size_t(sn), 0); for(L o : sm.off) in[std::size_t(o)] = 1;
 					for(L i = 0; i < sn; ++i) { if(!in[std::size_t(i)]) { if(!(sbase[i] == ssnap[std::size_t(i)])) violation(K + "moved-outside-source-view", "moving from a view modified a source element outside the view"); }
 						else if constexpr(!std::is_arithmetic_v<ST>) { if(!sbase[i].empty()) {
 							// element_moved() is the documented (and baseline-tested) way to move elements out of a view: there the viewed elements must be moved-from.
 							// For `.move()` (a sub-array flagged as movable) the pinned tree copies on whole-view assignment; the property does not clearly demand a move there: logged as an observation.
-							if(ov == 10) violation(K + "source-not-moved-from", "source element inside the element_moved() view was copied, not moved from"); else info("C05:move():copies-instead-of-moving", "dst = src.move() copied the elements (source left intact)"); } } }
+							if(ov == 10 || ov == 13) violation(K + "source-not-moved-from", "source element inside the element_moved() view was copied, not moved from"); else info("C05:move():copies-instead-of-moving", "dst = src.move() copied the elements (source left intact)"); } } }
 				} else { count("move_source_not_a_view_skipped"); }
 			}); break; }
 		default: break;
